@@ -359,7 +359,7 @@ def wild(rng):
     return -x if rng.random() < 0.3 else x
 
 
-def gen_edge(rng):
+def gen_edge(rng, min_shape=0.05, coherent_mu=False):
     """a coherent (cavity, edge) situation: one time scale tau, shapes, rates ~ shape/tau, counts"""
     tau = lu(rng, 1e-4, 1e8)
     def shape():
@@ -368,7 +368,7 @@ def gen_edge(rng):
             return float(rng.randint(1, 40))
         if u < 0.25:
             return 1.0
-        return lu(rng, 0.05, 5e3)
+        return lu(rng, min_shape, 5e3)
     def rate(a):
         return a / tau * lu(rng, 0.3, 3.0)
     u = rng.random()
@@ -380,7 +380,13 @@ def gen_edge(rng):
         y = lu(rng, 1e-3, 1e4)
     else:
         y = float(rng.randint(1, 30)) * rng.uniform(0.05, 1.0)      # damped likelihood: fractional counts
-    mu = (y + rng.random()) / tau * lu(rng, 0.05, 20.0) if rng.random() < 0.8 else lu(rng, 1e-12, 1e-2) / tau
+    if coherent_mu:
+        # likelihood and cavities speak about the same time scale (within a factor 5), as in EP
+        mu = (y + rng.random()) / tau * lu(rng, 0.2, 5.0)
+    elif rng.random() < 0.8:
+        mu = (y + rng.random()) / tau * lu(rng, 0.05, 20.0)
+    else:
+        mu = lu(rng, 1e-12, 1e-2) / tau
     a_i, a_j = shape(), shape()
     d = {"tau": tau, "a_i": a_i, "a_j": a_j, "b_i": rate(a_i), "b_j": rate(a_j), "y_ij": y, "mu_ij": mu}
     d["t_i"] = tau * lu(rng, 0.05, 20.0)
@@ -556,3 +562,138 @@ def twin_vs_real(t, r):
         return False
     return all(close(a, b, 1e-9, 0.0) or (isinstance(a, float) and abs(a - b) <= 1e-9 * (1 + abs(a))) for a, b in zip(ft, fr))
 
+
+
+# ------------------------------------------------------------------ argument tuples recorded from real EP runs
+WRAPPERS = ["gamma_projection", "leafward_projection", "rootward_projection", "unphased_projection",
+            "twin_projection", "sideways_projection", "mutation_gamma_projection",
+            "mutation_leafward_projection", "mutation_rootward_projection", "mutation_edge_projection",
+            "mutation_unphased_projection", "mutation_twin_projection", "mutation_sideways_projection",
+            "mutation_block_projection"]
+
+
+def record_ep(rng, n_ts, keep=400):
+    """run tsdate.date (variational_gamma, pure-Python kernels) on small simulated tree sequences with the
+    projection wrappers of tsdate.approx wrapped from outside; returns {wrapper: [argument lists]} (a
+    random subsample of at most `keep` per wrapper) and the number of successful runs"""
+    import tsdate
+    import tsdate.approx as X
+    from vlib import gen
+    if os.environ.get("NUMBA_DISABLE_JIT") != "1":
+        raise RuntimeError("record_ep needs NUMBA_DISABLE_JIT=1 (the kernels must be plain Python to be wrapped)")
+    rec = {n: [] for n in WRAPPERS}
+    orig = {n: getattr(X, n) for n in WRAPPERS}
+
+    def wrap(n):
+        f = orig[n]
+
+        def g(*args):
+            rec[n].append([tuple(float(v) for v in a) if isinstance(a, np.ndarray) else float(a) for a in args])
+            return f(*args)
+        return g
+    runs = 0
+    try:
+        for n in WRAPPERS:
+            setattr(X, n, wrap(n))
+        for _ in range(n_ts):
+            dip = rng.random() < 0.5
+            ts = gen.sim_ts(rng, n=rng.randint(2, 5) if dip else rng.randint(3, 10), L=rng.choice([20, 100, 1000]),
+                            ploidy=2 if dip else 1)
+            if rng.random() < 0.3:
+                ts = gen.internal_samples(rng, ts, k=rng.randint(1, 2))
+            if ts.num_mutations == 0:
+                continue
+            kw = {"rescaling_intervals": rng.choice([0, 1, 2, 5])}
+            if dip and rng.random() < 0.8:
+                kw["singletons_phased"] = False
+            try:
+                tsdate.date(ts, mutation_rate=rng.choice([1e-2, 1e-1, 1.0]), progress=False, **kw)
+                runs += 1
+            except Exception:
+                pass                      # input classes tsdate rejects are the business of C35
+    finally:
+        for n in WRAPPERS:
+            setattr(X, n, orig[n])
+    for n in WRAPPERS:
+        if len(rec[n]) > keep:
+            rec[n] = rng.sample(rec[n], keep)
+    return rec, runs
+
+
+def perturb(rng, pyname, args, spread=2.0):
+    """a recorded argument list of a projection wrapper moved within the range EP visits: one common
+    change of time unit c (rates / c, ages * c) and an independent factor in [1/spread, spread] on
+    every shape (kept >= 1 when it was), rate, count and mutational span"""
+    params = info()["meta"][pyname]["params"]
+    c = lu(rng, 1e-6, 1e6)
+
+    def f():
+        return lu(rng, 1.0 / spread, spread)
+    out = []
+    for p, a in zip(params, args):
+        if p in ("pars_i", "pars_j"):
+            shape = a[0] + 1.0
+            new = shape * f()
+            if shape >= 1.0:
+                new = max(new, 1.0)
+            out.append((new - 1.0, a[1] * f() / c))
+        elif p == "pars_ij":
+            out.append((a[0] * f(), a[1] * f() / c))
+        else:
+            out.append(a * c)
+    return out
+
+
+# ------------------------------------------------------------------ numba-compiled functions (thorough tier)
+_JIT_SCRIPT = r'''
+import sys, json, math
+import numpy as np
+sys.path.insert(0, %(tools)r)
+import tsdate.approx, tsdate.hypergeo
+from props import _approx as A
+cases = json.load(sys.stdin)
+out = {}
+for fn, lst in cases.items():
+    mod = tsdate.approx if hasattr(tsdate.approx, fn) else tsdate.hypergeo
+    f = getattr(mod, fn)
+    res = []
+    for args in lst:
+        args = [tuple(float(x) for x in a) if isinstance(a, list) else float(a) for a in args]
+        res.append(A.jsonable(A.run_py(f, args)))
+    out[fn] = res
+json.dump(out, sys.stdout)
+'''
+
+
+def unjson(x):
+    if isinstance(x, list):
+        return tuple(unjson(y) for y in x)
+    if isinstance(x, str) and x in ("nan", "inf", "-inf"):
+        return float(x)
+    return x
+
+
+def jit_check(ctx, names, n_per_fn):
+    """the numba-compiled functions (JIT on, separate process) against the plain-Python twin on generated
+    arguments: compiled code must agree to 1e-9 (x**k is compiled to multiplications, libm otherwise)"""
+    import json
+    import subprocess
+    tw = twin()
+    cases = {n: [gen_args(ctx.rng, n) for _ in range(n_per_fn)] for n in names}
+    env = dict(os.environ)
+    env.pop("NUMBA_DISABLE_JIT", None)
+    tools = os.path.abspath(os.path.join(os.path.dirname(__file__), ".."))
+    p = subprocess.run([sys.executable, "-c", _JIT_SCRIPT % {"tools": tools}],
+                       input=json.dumps({n: [jsonable(a) for a in v] for n, v in cases.items()}),
+                       capture_output=True, text=True, env=env, timeout=1500)
+    if p.returncode != 0:
+        ctx.tie_fail("correspondence", "jit-subprocess", p.stderr[-1500:])
+        return
+    res = json.loads(p.stdout)
+    for n in names:
+        for a, r in zip(cases[n], res[n]):
+            r = unjson(r)
+            t, _ = tw.call(n, a)
+            ok = twin_vs_real(t, r)
+            ctx.corr("numba-compiled %s vs plain Python" % n, ok, "python %r compiled %r" % (t, r),
+                     replay={"fn": n, "args": jsonable(a)})
